@@ -689,7 +689,7 @@ def run_full_stack(ctx, label, kex, evil_side, ptype, rewrite, must_reject):
     p.ts._preferred_kex = (kex,)
     p.ts._modulus_pack = kexbench.modulus_pack()
     for t in (p.tc, p.ts):  # the box may be heavily loaded; paramiko's own 15 s limits are not under test
-        t.banner_timeout = t.handshake_timeout = 120
+        t.banner_timeout = t.handshake_timeout = 60
     evil = p.tc if evil_side == "client" else p.ts
     victim = p.ts if evil_side == "client" else p.tc
     vside = "s" if evil_side == "client" else "c"
@@ -714,7 +714,7 @@ def run_full_stack(ctx, label, kex, evil_side, ptype, rewrite, must_reject):
             return w
         setattr(victim, fn, wrap(getattr(victim, fn)))
     try:
-        completed = p.start(timeout=150)
+        completed = p.start(timeout=90)
         vpair.wait_for(lambda: not victim.is_active() or completed, 10)
     finally:
         p.close()
@@ -758,6 +758,10 @@ def stratum_full_stack(ctx, idx):
             continue
         if time.time() > end:
             ctx.count("full_stack_time_capped")
+            break
+        if any(sig.startswith("full handshake") for sig in ctx.violations):
+            # already refuted in this shard; a victim that accepted garbage can only time out
+            ctx.count("full_stack_cut_short_after_violation")
             break
         run_full_stack(ctx, *case)
 
